@@ -15,6 +15,7 @@
 //                          q = live instances at the quiescent point of "fini" (everything destroyed), -1 otherwise
 // "fini <i>" destroys both variables, records the number of live instances, and recreates them as empty lists.
 #include "drv.h"
+#include <pthread.h>
 #include "tracked.h"
 #include <nstd/List.hpp>
 #include <nstd/Array.hpp>
@@ -159,6 +160,19 @@ static void backwardVar(int i)
   fputc(']', g_out);
 }
 
+struct SortBig { long n; long order; long ok; };
+static void* sortbig_thread(void* arg)
+{
+  SortBig* job = (SortBig*)arg;
+  List<int> l;
+  for(long k = 0; k < job->n; ++k) l.append(job->order == 0 ? (int)(job->n - k) : job->order == 1 ? (int)k : (int)((k % 7) * 1000 - k));
+  l.sort();
+  long cnt = 0, ok = 1; long long sum = 0, want = 0; int prev = 0;
+  for(long k = 0; k < job->n; ++k) want += job->order == 0 ? (int)(job->n - k) : job->order == 1 ? (int)k : (int)((k % 7) * 1000 - k);
+  for(List<int>::Iterator it = l.begin(), end = l.end(); it != end; ++it, ++cnt) { if(cnt && *it < prev) ok = 0; prev = *it; sum += *it; }
+  job->ok = ok && cnt == job->n && sum == want;
+  return 0;
+}
 static void observe(const char* op, int i, long v, long p, const char* kd, long r, long b)
 {
   j_begin(op);
@@ -369,6 +383,34 @@ void drv_apply(const char* op)
     if(K != K_LIST) NOP();
     x.l->sort();
   }
+  else if(!strcmp(op, "poolsmall"))
+  {
+    if(p < 1 || p > 200) NOP();
+    struct S5 { char c[5]; };
+    PoolList<int> pi; PoolList<S5> ps; PoolList<char> pc;
+    for(long k = 0; k < p; ++k) { pi.append((int)(k * 7 + 1)); S5 s5; for(int m = 0; m < 5; ++m) s5.c[m] = (char)(k + m); ps.append(s5); pc.append((char)(k + 3)); }
+    long k = 0; b = 1;
+    for(PoolList<int>::Iterator it = pi.begin(), end = pi.end(); it != end; ++it, ++k) if(*it != (int)(k * 7 + 1)) b = 0;
+    if(k != p) b = 0;
+    k = 0;
+    for(PoolList<S5>::Iterator it = ps.begin(), end = ps.end(); it != end; ++it, ++k) for(int m = 0; m < 5; ++m) if((*it).c[m] != (char)(k + m)) b = 0;
+    if(k != p) b = 0;
+    k = 0;
+    for(PoolList<char>::Iterator it = pc.begin(), end = pc.end(); it != end; ++it, ++k) if(*it != (char)(k + 3)) b = 0;
+    if(k != p) b = 0;
+  }
+  else if(!strcmp(op, "sortbig"))
+  {
+    // a long monotone list sorted by a thread with a 256 KiB stack (the recursion depth must not grow with the length)
+    if(p < 2 || p > 100000 || v < 0 || v > 2) NOP();
+    SortBig job = { p, v, 0 };
+    pthread_attr_t attr; pthread_attr_init(&attr); pthread_attr_setstacksize(&attr, 256 * 1024);
+    pthread_t th;
+    if(pthread_create(&th, &attr, sortbig_thread, &job) != 0) { fprintf(stderr, "DRIVER-ERROR: pthread_create\n"); exit(3); }
+    pthread_join(th, 0);
+    pthread_attr_destroy(&attr);
+    b = job.ok;
+  }
   else if(!strcmp(op, "find"))
   {
     if(K == K_POOL) NOP();
@@ -430,6 +472,13 @@ void drv_apply(const char* op)
     if(K != K_LIST || p < 0 || p > n || v < 0 || v >= n) NOP();
     TList::Iterator it = x.l->insert(listAt(*x.l, p), *listAt(*x.l, v));
     r = it == x.l->end() ? -1 : ser((*it).serial);
+  }
+  else if(!strcmp(op, "appendrange"))
+  {
+    // append(values, size) with values pointing at a range of the array's own elements
+    if(K != K_ARRAY || v < 0 || p < 0 || v + p > n) NOP();
+    const Tracked* base = (const Tracked*)*x.a;
+    x.a->append(base + v, (usize)p);
   }
   else if(!strcmp(op, "resizeown"))
   {
